@@ -29,7 +29,7 @@ ASSUMPTIONS = [
     "ACL patterns never split the rows of one rulebook (rule,key): they are the rulebook's patterns, widened (*, truncation + ~) or narrowed to one key",
     "rulebook logics emit only the row or its negation (default, undo_redo, ordered)",
 ]
-FLOORS = {"quick": {"patches_checked": 2000, "commands_checked": 3000, "uncovered_rows_checked": 3000, "cant_delete_rows_checked": 150, "composition_checked": 2000, "front_runs_with_acl": 300, "front_runs_empty_acl": 10, "front_runs_acl_safe": 150, "flat_vendor_cases": 400, "second_devices_with_shared_acl": 800, "shared_subrule_acl_cases": 300, "front_runs_filter_acl": 150, "deploy_front_runs": 500},
+FLOORS = {"quick": {"patches_checked": 2000, "commands_checked": 3000, "uncovered_rows_checked": 3000, "cant_delete_rows_checked": 150, "composition_checked": 2000, "front_runs_with_acl": 300, "front_runs_empty_acl": 10, "front_runs_acl_safe": 150, "flat_vendor_cases": 400, "second_devices_with_shared_acl": 800, "shared_subrule_acl_cases": 300, "front_runs_filter_acl": 150, "deploy_front_runs": 500, "cases_with_negated_rows_in_new": 400},
           "thorough": {"patches_checked": 60000, "commands_checked": 90000, "uncovered_rows_checked": 90000, "cant_delete_rows_checked": 4000, "composition_checked": 60000}}
 VENDORS = c01.BLOCK_VENDORS
 
@@ -169,7 +169,17 @@ def check_untouched(snap, alive, al, ag, prefix, acc, w, U=None):
                                   dict(w, row=list(path)))
 
 
-def check_case(seed, acc, flat=False, shared=False):
+def add_exact_negations(rng, tree, prefix, rate):
+    """beside some rows put their exact negated form as a row of its own (a generator that emits `undo interface X`)"""
+    out = type(tree)()
+    for row, ch in tree.items():
+        out[row] = add_exact_negations(rng, ch, prefix, rate) if ch else type(tree)()
+        if rng.random() < rate and not row.startswith(prefix + " "):
+            out[prefix + " " + row] = type(tree)()
+    return out
+
+
+def check_case(seed, acc, flat=False, shared=False, negnew=False):
     from annet.api import _diff_and_patch
     from annet.annlib.rbparser.acl import compile_acl_text
     from annet.annlib.patching import apply_acl
@@ -181,7 +191,7 @@ def check_case(seed, acc, flat=False, shared=False):
     rtext, atext = RB.render(U), A.render(acl)
     if not atext.strip():
         return None
-    w = {"seed": seed, "flat": flat, "shared": shared, "vendor": vname, "rulebook": rtext, "acl": atext, "old": plain(old)}
+    w = {"seed": seed, "flat": flat, "shared": shared, "negnew": negnew, "vendor": vname, "rulebook": rtext, "acl": atext, "old": plain(old)}
     if flat:
         acc.count("flat_vendor_cases")
     try:
@@ -192,6 +202,11 @@ def check_case(seed, acc, flat=False, shared=False):
         return None
     al, ag = A.compile_level(acl, ideal=True)
     new = unplain(A.filter_tree(plain(mutated), al, ag, prefix, "property"))
+    if negnew:
+        # the desired configuration also holds explicit negations of some of its rows: the ACL step must not let the negation of
+        # a not-deletable row through (it would become a removal command)
+        new = add_exact_negations(random.Random(seed ^ 0x4E), new, prefix, 0.3)
+        acc.count("cases_with_negated_rows_in_new")
     w["new"] = plain(new)
     try:
         diff, patch = _diff_and_patch(c01.Dev(hw), old, new, cacl, None, False, rb=rb)
@@ -423,7 +438,8 @@ def run_shard(spec, acc):
         if spec["witness"].get("front"):
             check_front(spec["witness"]["seed"], acc, safe=bool(spec["witness"].get("safe")), filt=bool(spec["witness"].get("filt")))
         else:
-            check_case(spec["witness"]["seed"], acc, flat=bool(spec["witness"].get("flat")), shared=bool(spec["witness"].get("shared")))
+            check_case(spec["witness"]["seed"], acc, flat=bool(spec["witness"].get("flat")), shared=bool(spec["witness"].get("shared")),
+                       negnew=bool(spec["witness"].get("negnew")))
         return
     tier, k, n = spec["tier"], spec["shard"], spec["nshards"]
     total = 2400 if tier == "quick" else 70000
@@ -442,3 +458,5 @@ def run_shard(spec, acc):
             check_case(rng.randrange(1 << 48), acc, flat=True)
         if j % 4 == 0:
             check_case(rng.randrange(1 << 48), acc, shared=True)
+        if j % 4 == 1:
+            check_case(rng.randrange(1 << 48), acc, negnew=True)
